@@ -44,6 +44,17 @@ def run(repo, rep, tier):
         rep.check('noninterference', 'the exit status computed by %s reads no presentation option or output-buffer state' % fname, not bad, fnode,
                   'the exit status depends on presentation state in %s: %s (the same peer exits differently under -l / -b / -v / -j)' % (fname, bad), stmt='status slice of %s' % fname,
                   sample={'rule': 'noninterference', 'function': fname, 'slice_size': len(R)})
+    # text and JSON are rendered one after the other from the same parsed lists: nothing on the audit path may edit those lists in place in between
+    # (shared provenance/alias scan, props/_listedits.py)
+    from props import _listedits
+    _edits, _nf = _listedits.edits(repo)
+    rep.floor('noninterference', 'functions scanned for in-place edits of the parsed lists', _nf, 100)
+    for _f, _node, _desc in _edits:
+        rep.check('noninterference', 'the parsed name-lists are the same for every rendering', False, _node,
+                  'the parsed name-list is edited in place (%s) in %s.%s: renderings made after this point (JSON, recommendations) list other algorithms than those made before it (text), so the formats disagree on the findings' % (_desc, _f._module.name, _f._qualname),
+                  stmt='in-place edit of a parsed list in %s' % _f._qualname)
+    if not _edits:
+        rep.ob('noninterference', 'no function on the audit path edits a parsed name-list in place (%d functions)' % _nf, True)
     # presentation reads are confined to padding/prefix/verbosity of continuation lines
     pres_reads = [n for n in walk_no_nested(oa) if isinstance(n, ast.Attribute) and unparse(n) in ('out.batch', 'out.verbose')]
     rep.floor('noninterference', 'presentation reads in output_algorithm', len(pres_reads), 2)
